@@ -1,6 +1,7 @@
 """C18 — pretty-printing never changes the query: parse(Prettifier(...)(tree)) == tree for every parsed
 query and every setting; deterministic; the input tree is not modified."""
 import copy
+import gc
 import re
 
 import lib
@@ -102,6 +103,168 @@ def depth(n):
     return 1 + max([depth(c) for c in n.children] or [0])
 
 
+# ------------------------------------------------------------------ histories on reused instances
+# The value model has no instance state and no object identity.  These histories exercise exactly that on the
+# implementation: the same Prettifier instances (and the module-level `prettify`) are called again and again,
+# on trees that are dropped (so that id() values are reused) and on trees edited in place.
+
+TEMPLATES = ["%s AND %s OR %s", "(%s OR %s) AND f:%s", "f:(%s %s) AND -%s", "%s %s %s",
+             "f:\"%s %s\"~2 OR (%s AND (%s OR %s))", "\"%s\n%s\" AND %s", "[%s TO %s] OR g:(%s)",
+             "%s AND (%s OR (%s AND (%s OR %s)))", "t:%s^2 %s~1 /%s/", "-xT12 :30 %s"]
+EDIT_TEMPLATES = ["%s AND %s OR %s", "(%s OR %s) AND f:%s", "%s %s %s", "f:\"%s %s\"~2 OR (%s AND (%s OR %s))",
+                  "\"%s\n%s\" AND %s", "[%s TO %s] OR g:(%s)", "%s AND (%s OR (%s AND (%s OR %s)))",
+                  "f:(%s %s) OR %s"]
+LETTERS2 = "abcdefghijklmnopqrstuvwxyz"
+
+
+def rword(r, n=3):
+    # same-sized lower-case words (never a reserved word)
+    return "".join(r.choice(LETTERS2) for _ in range(n))
+
+
+def fill(r, template):
+    return template % tuple(rword(r) for _ in range(template.count("%s")))
+
+
+def reused_instances(Prettifier):
+    import luqum.pretty as LP
+    inst = [((4, 80, False), LP.prettify, "luqum.pretty.prettify")]
+    for cfg in [(2, 10, True), (0, 1, False), (8, 40, True), (3, 25, False)]:
+        inst.append((cfg, Prettifier(*cfg), "Prettifier%r" % (cfg,)))
+    return inst
+
+
+def call_instance(inst, tree):
+    try:
+        return ("ok", inst(tree))
+    except AssertionError:
+        return ("assert", None)
+    except AttributeError as e:
+        if "NoneType" in str(e) and "split" in str(e):
+            return ("none", None)
+        return ("other", repr(e))
+    except Exception as e:
+        return ("other", repr(e))
+
+
+def judge(res, parser, Prettifier, tree, cfg, inst, history, cases, payloads, dist):
+    """one call on a reused instance: serialise the CURRENT tree, call, compare with a fresh instance,
+    apply the round-trip oracle against the current tree, emit the model case"""
+    lit = lib.g_item(tree)
+    before = (lit, tree.__repr__())
+    k1, p1 = call_instance(inst, tree)
+    kf, pf = impl_pretty(Prettifier, tree, cfg)
+    payload = {"history": list(history), "indent": cfg[0], "max_len": cfg[1], "inline_ops": cfg[2], "pretty": p1}
+    if (lib.g_item(tree), tree.__repr__()) != before:
+        res.failures.append((dict(payload, why="the input tree was modified"), None))
+    if (k1, p1) != (kf, pf):
+        res.failures.append((dict(payload, why="a reused instance and a fresh Prettifier give different results",
+                                  fresh=[kf, pf]), None))
+    rt = False
+    if k1 != "ok":
+        res.failures.append((dict(payload, why="prettifier raised (%s)" % k1), None))
+    else:
+        kk, t2 = PG.impl_parse(p1, parser.parse)
+        if kk != "ok":
+            res.failures.append((dict(payload, why="pretty output rejected by the parser: %s" % (t2,)),
+                                 classify(tree)))
+        elif not (t2 == tree):
+            res.failures.append((dict(payload, why="pretty output parses to a tree different from the current tree",
+                                      reparsed=repr(t2)[:600], current=repr(tree)[:600]), classify(tree)))
+        else:
+            rt = True
+    if not rt:
+        dist["roundtrip_false"] += 1
+    exp = {"ok": "(XOk %s %s)" % (lib.g_str(p1) if k1 == "ok" else "[]", lib.g_bool(rt)),
+           "assert": "XAssert", "none": "XNone", "other": "XOther"}[k1]
+    cases.append("(%s, (%s, %s, %s), true, %s)" % (lit, lib.g_Z(cfg[0]), lib.g_Z(cfg[1]), lib.g_bool(cfg[2]), exp))
+    payloads.append(payload)
+
+
+def edit_in_place(r, T, parser, tree):
+    """one in-place edit that keeps the tree re-parsable as it is; returns a description or None"""
+    nodes = [n for _, n in gentree.all_nodes(tree)]
+    kinds = ["word", "append", "expr", "phrase"]
+    r.shuffle(kinds)
+    for kind in kinds:
+        if kind == "word":
+            ws = [n for n in nodes if type(n) is T.Word]
+            if ws:
+                n = r.choice(ws)
+                old, n.value = n.value, rword(r, r.choice([3, 3, 7]))
+                return "Word %r .value = %r" % (old, n.value)
+        elif kind == "append":
+            ops = [n for n in nodes if isinstance(n, T.BaseOperation)]
+            if ops:
+                n = r.choice(ops)
+                w = T.Word(rword(r), head=" ")
+                if r.random() < 0.5:
+                    n.operands = tuple(n.operands) + (w,)
+                else:
+                    n.children = list(n.children) + [w]
+                return "%s: operand %r appended" % (type(n).__name__, w.value)
+        elif kind == "expr":
+            gs = [n for n in nodes if isinstance(n, T.BaseGroup)]
+            fs = [n for n in nodes if type(n) is T.SearchField]
+            if gs and (not fs or r.random() < 0.6):
+                n = r.choice(gs)
+                n.expr = parser.parse(fill(r, r.choice(["%s OR %s", "%s %s", "%s"])))
+                return "%s.expr = %r" % (type(n).__name__, str(n.expr))
+            if fs:
+                n = r.choice(fs)
+                n.expr = r.choice([T.Word(rword(r)), T.Phrase('"%s %s"' % (rword(r), rword(r)))])
+                return "SearchField(%r).expr = %r" % (n.name, str(n.expr))
+        elif kind == "phrase":
+            ps = [n for n in nodes if type(n) is T.Phrase]
+            if ps:
+                n = r.choice(ps)
+                old, n.value = n.value, r.choice(['"%s\n%s"', '"%s %s"']) % (rword(r), rword(r))
+                return "Phrase %r .value = %r" % (old, n.value)
+    return None
+
+
+def histories(res, r, quick, T, parser, Prettifier, cases, payloads, dist):
+    insts = reused_instances(Prettifier)
+    # (a) REUSE: many freshly parsed same-sized queries, each dropped after its calls
+    n_reuse = 220 if quick else 2200
+    for i in range(n_reuse):
+        s = fill(r, TEMPLATES[i % len(TEMPLATES)] if i % 3 else r.choice(TEMPLATES))
+        tree = parser.parse(s)
+        cfg, inst, name = insts[i % len(insts)]
+        judge(res, parser, Prettifier, tree, cfg, inst, ["reuse #%d on %s" % (i, name), "parse(%r)" % s],
+              cases, payloads, dist)
+        if i % 7 == 0:            # and a second instance on the same object
+            cfg2, inst2, name2 = insts[(i + 1) % len(insts)]
+            judge(res, parser, Prettifier, tree, cfg2, inst2,
+                  ["reuse #%d on %s (same tree object as the previous call)" % (i, name2), "parse(%r)" % s],
+                  cases, payloads, dist)
+        del tree
+        if i % 25 == 0:
+            gc.collect()
+    dist["reuse_history_calls"] = n_reuse + (n_reuse + 6) // 7
+    # (b) EDIT: the same object prettified, edited in place, prettified again by the same instance
+    n_edit = 70 if quick else 700
+    n_calls = 0
+    for i in range(n_edit):
+        s = fill(r, EDIT_TEMPLATES[i % len(EDIT_TEMPLATES)])
+        tree = parser.parse(s)
+        cfg, inst, name = insts[i % len(insts)]
+        history = ["edit history #%d on %s" % (i, name), "parse(%r)" % s, "call"]
+        judge(res, parser, Prettifier, tree, cfg, inst, history, cases, payloads, dist)
+        n_calls += 1
+        for _ in range(r.choice([1, 2, 2, 3])):
+            what = edit_in_place(r, T, parser, tree)
+            if what is None:
+                break
+            history = history + ["edit in place: " + what, "call"]
+            judge(res, parser, Prettifier, tree, cfg, inst, history, cases, payloads, dist)
+            n_calls += 1
+        del tree
+        if i % 20 == 0:
+            gc.collect()
+    dist["edit_history_calls"] = n_calls
+
+
 def correspond(model_ok, res):
     import luqum.tree as T
     from luqum.parser import parser
@@ -121,6 +284,7 @@ def correspond(model_ok, res):
 
     cases, payloads = [], []
     parsed_strings, parsed_results = [], []
+    rt_failed = {}                      # input string -> some setting's output did not parse back to an equal tree
     seen = set()
     dist = {"multi_line_outputs": 0, "one_line_outputs": 0, "inline_ops": 0, "tree_depth": {}, "indent": {},
             "max_len_bucket": {}, "output_longer_than_max_len": 0, "rejected_inputs": 0, "programmatic_trees": 0,
@@ -164,6 +328,7 @@ def correspond(model_ok, res):
                     rt = True
                 if not rt:
                     dist["roundtrip_false"] += 1
+                    rt_failed[s] = True
                 dist["multi_line_outputs" if "\n" in p1 else "one_line_outputs"] += 1
                 if max(map(len, p1.split("\n"))) > cfg[1]:
                     dist["output_longer_than_max_len"] += 1
@@ -205,12 +370,21 @@ def correspond(model_ok, res):
         payloads.append({"programmatic_tree": gentree.describe(tree)[:1500], "indent": cfg[0], "max_len": cfg[1],
                          "inline_ops": cfg[2], "implementation": [k1, p1]})
 
+    n_plain = len(cases)
+    histories(res, r, quick, T, parser, Prettifier, cases, payloads, dist)
+    for pl in payloads[n_plain:]:
+        seen.add((tuple(pl["history"]), pl["indent"], pl["max_len"], pl["inline_ops"]))
     res.cases = len(cases)
     res.nontrivial = len(seen)
     res.rule = ("grammar-directed parsed queries (every production, random Unicode-whitespace layout, long chains "
                 "above the width) and a fixed corpus x printer settings (indent 0-8, max_len 1-120, inline_ops); "
-                "plus programmatic trees with empty operations for the exception paths of the model; "
-                "non-trivial = distinct (query, settings) whose tree has more than one node")
+                "plus programmatic trees with empty operations for the exception paths of the model; plus REUSE "
+                "histories (the module-level prettify and four long-lived Prettifier instances called on hundreds "
+                "of freshly parsed same-sized queries that are dropped after the call) and EDIT histories (same "
+                "object prettified, edited in place - word value, appended operand, replaced .expr, phrase value - "
+                "and prettified again by the same instance), each output compared with the model on the tree as "
+                "it is at the call and with a fresh instance, and judged by the round-trip oracle; "
+                "non-trivial = distinct (query, settings) whose tree has more than one node, or distinct history step")
     res.samples = [dict(p, pretty=(p.get("pretty") or "")[:200]) for p in payloads[7 * 12:7 * 12 + 6]]
     res.distribution = dist
     if not model_ok:
@@ -238,6 +412,34 @@ def correspond(model_ok, res):
         # the hypothesis side of the statement in the model: the model parser returns the same trees
         for i in PG.run_parse_cases("C18p", parsed_strings, parsed_results):
             res.disagreements.append({"input": parsed_strings[i], "what": "model parser differs on the input query"})
+        # theorem C18_partial_lexemes against the implementation: inside its two guards (no ghost event while parsing,
+        # no newline inside a token - both evaluated on the MODEL) the implementation's round trip must never have
+        # failed, whatever the known-finding classifier says; the second half of the list probes the guard, to
+        # measure how many inputs the theorem covers
+        gdefs = ("Definition in_guard (s : str) : bool :=\n"
+                 "  match parse s with\n"
+                 "  | Some (Ok t) => (match parse_events s with [] => true | _ => false end) && no_newline_in_lexemes s\n"
+                 "  | _ => false end.\n"
+                 "Definition chk (c : str * bool * bool) : bool :=\n"
+                 "  let '(s, failed, probe) := c in\n"
+                 "  if probe then in_guard s else negb (in_guard s && failed).")
+        gcases = ["(%s, %s, false)" % (lib.g_str(x), lib.g_bool(bool(rt_failed.get(x)))) for x in parsed_strings]
+        gcases += ["(%s, false, true)" % lib.g_str(x) for x in parsed_strings]
+        gcanary = "([97]%N, true, false)"          # `a` is inside the guards: a failed round trip must be reported
+        gbad = lib.eval_cases("C18g", "Base Decimal Tree TreeEq GenParser Lexer Actions LR Parser Eq Pretty PrettyProofs BridgeProofs",
+                              gdefs, gcases + [gcanary], "chk", shard=120)
+        assert len(gcases) in gbad, "guard canary not detected"
+        n = len(parsed_strings)
+        outside = 0
+        for i in gbad:
+            if i < n:
+                res.disagreements.append({"input": parsed_strings[i],
+                                          "what": "inside the guards of theorem C18_partial_lexemes (model) but the "
+                                                  "implementation's pretty output did not parse back to an equal tree"})
+            elif i < 2 * n:
+                outside += 1
+        dist["inputs_inside_guards_of_C18_partial"] = n - outside
+        dist["inputs_outside_guards_of_C18_partial"] = outside
     except Exception as e:
         res.model_error = "%s: %s" % (type(e).__name__, e)
     return res
@@ -250,12 +452,18 @@ SPEC = {
     "module": "C18",
     "theorems": ["C18_refuted", "C18_plain_guard_refuted", "C18_deterministic", "C18_total", "C18_total_parsed", "C18_respacing",
                  "C18_respacing_plain", "C18_chunks_setting_independent", "C18_chunks_text", "C18_modulo_lexing"],
+    # the end-to-end theorem: bridge parser -> token groups (proofs/BridgeProofs.v) + L-respace
+    "more": [{"module": "C18p", "target": "props/C18p.vo",
+              "theorems": ["C18_partial", "C18_partial_lexemes", "C18_bridge", "C18_bridge_any_tables", "L_respace_glued_trail_thm",
+                           "C18_exact_groups_refuted"]}],
     "correspond": correspond,
     "statement": "for every parsed query t and every setting, parse(pretty cfg t) is a tree equal to t: REFUTED by "
                  "'\"a\\nb\" AND c' (F11), and even without newlines by '-xT12 :30' (F1 + time syntax). Proved: pretty never raises on a parsed query (any LR tables) and is a "
                  "function; for every setting its output is the setting-independent chunk sequence glued by "
                  "non-empty blank/newline separators, each newline inside a chunk being replaced by such a separator; "
-                 "and the statement's conclusion holds whenever the pretty text lexes to the query's tokens",
+                 "and the statement's conclusion holds whenever the pretty text lexes to the query's tokens. "
+                 "C18_partial_lexemes (C18p.v): the property's own statement, for every setting, for every parsed query "
+                 "without ghost event (C01's guard, excludes F1) and without a newline inside a token (excludes F11)",
     "level_text": "Coq proof (PARTIAL). Proved: (1) the full statement is refuted by a computed witness (F11), and so is "
                   "its restriction to trees without a newline in any chunk (second witness '-xT12 :30': str() of a "
                   "simple element drops the blank before a colon, F1, and 'T12:30' fuses into one word); "
@@ -269,9 +477,16 @@ SPEC = {
                   "separator; without a newline in the chunks the output is exactly that re-spacing; (4) using the "
                   "any-table layout independence of the LR driver (C03a): if the pretty text lexes to the same "
                   "(type, lexeme) token sequence as the query, it parses to a tree equal (luqum ==) to the original. "
-                  "NOT proved: that the pretty text lexes to the query's tokens (a lexer fact; false in the F11 and F1 "
-                  "situations). That last step is validated on every run by the correspondence, "
-                  "which evaluates the executable statement parse(pretty cfg t) == t both on the real "
+                  "(5) C18p.v, END TO END: C18_partial_lexemes = the property's statement for every setting under the two "
+                  "guards 'no ghost event while parsing' (C01's guard; excludes F1) and 'no newline inside a token' "
+                  "(exactly the complement of F11's predicate; newlines in the layout are proved harmless), both shown "
+                  "necessary by the two refutations (C18_partial: the same with 'no newline in a chunk'). It stands on the bridge C18_bridge "
+                  "(for ANY LR tables: C18_bridge_any_tables), an invariant of the 25 semantic actions threaded through "
+                  "the LR driver: the chunk sequence of the parsed tree is, chunk by chunk, blanks ++ text of a group "
+                  "of consecutive tokens of the query ++ blanks (a simple element keeps the layout of its inner nodes: "
+                  "C18_exact_groups_refuted shows the blanks cannot be dropped), and on the lexer theorem L-respace "
+                  "extended with a blank trailer. Outside the guards the conclusion is validated on every run by "
+                  "the correspondence, which evaluates the executable statement parse(pretty cfg t) == t both on the real "
                   "parser/prettifier and on the Coq models (Parser.parse (pretty ...) by vm_compute) and compares "
                   "the verdicts and the pretty strings; non-modification of the input is checked by snapshots.",
     "trusted_base": [
@@ -282,5 +497,8 @@ SPEC = {
         "value-based tree model: non-modification of the input is checked on the implementation by snapshots only",
     ],
     "assumptions": ["trees come from luqum's parser (programmatic trees are outside the property)",
-                    "settings are ints / bool as documented (indent, max_len, inline_ops)"],
+                    "settings are ints / bool as documented (indent, max_len, inline_ops)",
+                    "state kept on a Prettifier instance (or on the module-level `prettify`) and object identity "
+                    "(id(tree)-keyed caches, in-place edits between calls) are outside the value-based model; they "
+                    "are covered on the implementation by the REUSE and EDIT histories of harness/c18.py on every run"],
 }
